@@ -6,7 +6,7 @@
    `contract_ok pol l` is the documented usage contract of the single-block policies (reusable_storage,
    placement_alloc, reusable_buffer_storage: one live frame at a time, placement memory large enough); it holds
    for every history of default / mtsafe / stack storage (c19_contract_free). *)
-From Cocls Require Import Base BaseProofs StorageDefs StorageProofs StorageMtProofs StorageOracleProofs.
+From Cocls Require Import Base BaseProofs StorageDefs StorageProofs StorageMtProofs StorageOracleProofs StorageObjDefs StorageObjProofs.
 Local Open Scope Z_scope.
 
 Theorem c19_contract_free : forall pol l, contract_free pol = true -> contract_ok pol l = true.
@@ -90,6 +90,16 @@ Theorem c19_oracle_sound : forall pol ops,
 Proof. exact oracle_sound. Qed.
 Print Assumptions c19_oracle_sound.
 
+(* storage objects as values (StorageObjDefs.v): any number of reusable_storage objects that are move-assigned, move-constructed,
+   reused after having been moved from and destroyed (stk = false), or of stack_storage objects sharing one learned-size state,
+   each reserved once and used for several calls (stk = true); one live frame per object (the policies' contract, enforced by
+   ok2). For every history: a live frame's memory is still allocated (or is the area reserved for its own object), it has room
+   for the frame plus the trailer, and no delete ever hit something that was not a live block. *)
+Theorem c19_obj_valid : forall stk l slot f, aget (o2_frs (snd (run2 stk s2_0 l))) slot = Some f ->
+  frame_valid stk (snd (run2 stk s2_0 l)) f /\ h_bad (o2_hp (snd (run2 stk s2_0 l))) = 0.
+Proof. exact obj_valid. Qed.
+Print Assumptions c19_obj_valid.
+
 (* thread-safe variant, every interleaving *)
 Theorem c19_mt_exclusive : forall ops s i j fi fj, mt_reach ops s ->
   fget (frs (c_core s)) i = Some fi -> fget (frs (c_core s)) j = Some fj -> i <> j -> f_blk fi <> f_blk fj.
@@ -162,3 +172,11 @@ Example c19_nonvacuous_placed :
   contract_ok PMts l = true /\
   exists f, fget (frs (final_u PMts l)) 0 = Some f /\ xoff (final_p PMts l) (f_sz f) = 112 /\ f_n f = 144 /\ f_room f = 152.
 Proof. vm_compute. split; [reflexivity|]. eexists. repeat split; reflexivity. Qed.
+
+(* non-vacuity of c19_obj_valid: target with a small block, source with a big one, `target = std::move(source)`, then the
+   moved-from source serves a big frame again (it must allocate: its capacity is 0) *)
+Example c19_nonvacuous_obj :
+  let l := [PNew 0; PNew 1; PCreate 0 0 96; PFinish 0; PCreate 0 1 3096; PFinish 0; PMoveAssign 0 1; PCreate 1 1 3096] in
+  exists f, aget (o2_frs (snd (run2 false s2_0 l))) 1 = Some f /\ of_blk f = BHeap 2 /\ of_room f = 3096
+            /\ h_allocs (o2_hp (snd (run2 false s2_0 l))) = 3 /\ h_frees (o2_hp (snd (run2 false s2_0 l))) = 1.
+Proof. vm_compute. eexists. repeat split; reflexivity. Qed.
